@@ -6,8 +6,8 @@
    "Returns normally" is [<> Panic] / [= Ok _]; no statement below carries a
    size bound or a well-formedness hypothesis on the PDU content. *)
 (* Model.AccessorsRun: the glue the generated cases evaluate, built with this file *)
-From V Require Import Model.Accessors Model.AccessorsRun Gen.AccessorTables Spec.CombinerSpec
-  Proofs.CombinerProofs Proofs.AccessorsProofs Proofs.AccessorTables.
+From V Require Import Model.Accessors Model.AccessorsRun Model.CombinerRun Gen.AccessorTables Spec.CombinerSpec
+  Proofs.CombinerProofs Proofs.AccessorsProofs Proofs.AccessorTables Proofs.CombinerRound5.
 Open Scope N_scope.
 
 (* Every accessor on every value ReadPDU can return, for any transport content
@@ -37,28 +37,47 @@ Theorem C11_combiner_on_read_pdus : forall layouts (reads : list (stream * list 
   forall r, crun r h <> Panic.
 Proof. exact combiner_on_read_pdus. Qed.
 
+(* "a segment number of zero or above the announced total ... yields an ignored segment": such a
+   segment leaves the registry exactly as it was and makes no callback, in any registry state; so does a
+   run of ANY length of them (any totals, one key or many), and what follows is handled as if the run
+   had not happened — no counter, no record of them exists to overflow.  The generated runs
+   ([ignored_segs], the histories of the chk_ignored cases) are of that kind. *)
+Theorem C11_ignored_segment : forall r p, ill_numbered p -> cstep r p = Ok (r, []).
+Proof. exact cstep_ill_numbered. Qed.
+Theorem C11_ignored_run : forall r h, Forall ill_numbered h -> crun r h = Ok (r, map (fun _ => []) h).
+Proof. exact crun_ill_numbered. Qed.
+Theorem C11_after_ignored_run : forall r h1 h2, Forall ill_numbered h1 ->
+  crun r (h1 ++ h2) = match crun r h2 with
+                      | Ok (r', outs) => Ok (r', map (fun _ => []) h1 ++ outs)
+                      | Err e => Err e | Panic => Panic end.
+Proof. exact crun_after_ill_numbered. Qed.
+Theorem C11_generated_runs_are_ignored : forall form src dst rm tm km lo n, lo < 65536 ->
+  Forall ill_numbered (ignored_segs form src dst rm tm km lo n).
+Proof. exact ignored_segs_ill. Qed.
+
 (* MessageState.String for every value *)
 Theorem C11_msgstate : forall b, exists s, message_state_string b = Ok s.
 Proof. exact message_state_string_ok. Qed.
 (* ... and of the running code: its complete table has one row per octet, none
-   is a panic, and each is the text the model computes *)
+   is a panic, and on none does the model panic (C11 is about returning, not
+   about the names: the text is not compared) *)
 Theorem C11_msgstate_code :
   map (fun r => fst (fst r)) message_state_rows = all256 /\
   (forall b, b < 256 -> exists s, In (b, 0, s) message_state_rows) /\
-  (forall b cls s, In (b, cls, s) message_state_rows -> cls = 0 /\ message_state_string b = Ok s).
+  (forall b cls s, In (b, cls, s) message_state_rows -> cls = 0 /\ exists s', message_state_string b = Ok s').
 Proof. exact (conj message_state_rows_complete (conj message_state_code_total message_state_code)). Qed.
 
 (* CommandStatus.String / Error (what %v of a header, of a PDU and of an
    unsuccess record prints): total in the model, and of the running code: for
    every status in 0..0x4FF and the corners of the 32-bit range the dumped table
-   has no panic row and each text is the model's *)
+   has no panic row, and the model returns on each (texts are not compared) *)
 Theorem C11_command_status : forall named s, exists t, command_status_string named s = Ok t.
 Proof. exact command_status_string_ok. Qed.
 Theorem C11_command_status_code :
   (firstn 1280 (map (fun r => fst (fst (fst r))) command_status_rows) = map N.of_nat (seq 0 1280) /\
    existsb (N.eqb 4294967295) (map (fun r => fst (fst (fst r))) command_status_rows) = true) /\
   (forall s c1 c2 t, In (s, c1, c2, t) command_status_rows ->
-     c1 = 0 /\ c2 = 0 /\ command_status_string command_status_named s = Ok t).
+     c1 = 0 /\ c2 = 0 /\ exists t', command_status_string command_status_named s = Ok t').
 Proof. exact (conj command_status_rows_complete command_status_code). Qed.
 
 (* Address.String, Parse, ReadSequence, ReadCommandStatus, Resp *)
@@ -69,10 +88,50 @@ Theorem C11_parse : forall encoding m,
 Proof. exact parse_total. Qed.
 Theorem C11_parse_hex : forall encoding m, encoding (sm_dc m) = None -> parse encoding m = Ok (hex_string (sm_msg m)).
 Proof. exact parse_no_decoder. Qed.
+(* ... with nothing assumed about the decoder where it is the GSM 7-bit one: the decoder model of
+   Model/Gsm7.v (C08) plugged in, for the data_codings the running code routes to gsm7bit.Packed
+   (0x00, 0xD0-0xDF, 0xF0-0xF3, 0xF8-0xFB: the dumped list) and every message octets *)
+Theorem C11_parse_gsm7 : forall utf8 (encoding : N -> option decoder) m,
+  encoding (sm_dc m) = Some (gsm7_decoder utf8) -> parse encoding m <> Panic.
+Proof. exact parse_gsm7_total. Qed.
+Theorem C11_parse_gsm7_code : (forall m, parse encoding_gsm7 m <> Panic) /\
+  existsb (N.eqb 0) data_coding_gsm7 = true /\ existsb (N.eqb 240) data_coding_gsm7 = true.
+Proof. exact (conj parse_encoding_gsm7_total data_coding_gsm7_nonempty). Qed.
+
+(* ReadSequence / ReadCommandStatus go through reflect (getHeader): NumField, Field(i).Addr(), Interface().
+   [get_header_reflect] returns or panics depending on what reflect sees of the argument. *)
+(* on a non-nil pointer to a struct it panics exactly when an unexported field precedes every Header *)
+Theorem C11_get_header_pointer : forall fs,
+  get_header_reflect (ShPtrStruct fs) = Panic <->
+  exists pre post, fs = pre ++ KUnexported :: post /\ Forall (fun k => k = KExported) pre.
+Proof. exact scan_fields_panic_iff. Qed.
+(* it returns only on a non-nil pointer to a struct (or the empty struct) ... *)
+Theorem C11_get_header_needs_pointer : forall s, get_header_reflect s <> Panic ->
+  (exists fs, s = ShPtrStruct fs) \/ s = ShStruct [].
+Proof. exact get_header_not_pointer. Qed.
+(* ... a PDU struct passed by value panics (not what ReadPDU returns; noted, outside C11) *)
+Theorem C11_get_header_by_value_refuted : exists s, s = ShStruct [KHeader; KExported] /\ get_header_reflect s = Panic.
+Proof. exact get_header_value_refuted. Qed.
+(* of the running code: for every registered PDU type — field kinds dumped by reflect — as ReadPDU
+   returns it (pointer to the struct), the loop finds the Header; ReadSequence and ReadCommandStatus return *)
+Theorem C11_read_sequence_code : forall id kinds vs, In (id, kinds) pdu_shapes ->
+  get_header_reflect (ShPtrStruct (map kind_of kinds)) = Ok true /\
+  (exists z, read_sequence_go (ShPtrStruct (map kind_of kinds)) vs = Ok z) /\
+  (exists st, read_status_go (ShPtrStruct (map kind_of kinds)) vs = Ok st).
+Proof. exact read_sequence_on_pdus. Qed.
 Theorem C11_read_sequence : forall vs, exists s, read_sequence vs = Ok s.
 Proof. exact read_sequence_ok. Qed.
 Theorem C11_read_status : forall vs, exists s, read_status vs = Ok s.
 Proof. exact read_status_ok. Qed.
+
+(* formatting the octet-valued fields as text — ESMClass, RegisteredDelivery, InterfaceVersion, DataCoding
+   (String, GoString, MessageWaitingInfo, MessageClass, Encoding, Splitter), DataCoding.Validate,
+   MessageState; String(), fmt verbs, JSON text — of the running code, on EVERY octet value:
+   the dumped table has one row per kind and octet and none is a panic *)
+Theorem C11_enum_strings_code :
+  (forall k b, In k enum_kinds -> b < 256 -> In (k, b, 0) enum_string_rows) /\
+  (forall k b cls, In (k, b, cls) enum_string_rows -> cls = 0).
+Proof. exact (conj enum_string_code_total enum_string_code). Qed.
 Theorem C11_resp : forall pairs lay vs, exists o, resp pairs lay vs = Ok o.
 Proof. exact resp_ok. Qed.
 
